@@ -419,6 +419,17 @@ func RUnits(c *core.Ctx) {
 						nSrc++
 					}
 				}
+				// len(<string>) is a byte count too
+				if call, ok := ins.(*ssa.Call); ok {
+					if bi, ok := call.Call.Value.(*ssa.Builtin); ok && bi.Name() == "len" && len(call.Call.Args) == 1 {
+						if bt, ok := call.Call.Args[0].Type().Underlying().(*types.Basic); ok && bt.Info()&types.IsString != 0 {
+							if pk := core.FnPkgPath(fn); pk == core.PkgRoot || pk == core.PkgCompat {
+								tainted[call] = true
+								nSrc++
+							}
+						}
+					}
+				}
 			}
 		}
 	}
@@ -507,6 +518,35 @@ func RUnits(c *core.Ctx) {
 					ord[name]++
 					c.Visit(name)
 					c.Bad(fmt.Sprintf("%s / byte offset used as rune %s #%d", name, what, ord[name]), ins.Pos(), "%s of a []rune is a value derived from a byte offset (strings.Index* / range-over-string key): the two only coincide for ASCII input", what)
+				}
+			}
+		}
+	}
+	// the scan start handed to the interpreter is a rune position as well
+	if scanFn := p.SSAFunc(p.LookupFunc("", "Runner.scan")); scanFn != nil {
+		tsIdx := -1
+		for i, prm := range scanFn.Params {
+			if prm.Name() == "textstart" || prm.Name() == "rt" && false {
+				tsIdx = i
+			}
+		}
+		if tsIdx < 0 && len(scanFn.Params) > 2 {
+			tsIdx = 2
+		}
+		for _, fn := range funcs {
+			name := core.SSAName(fn)
+			for _, b := range fn.Blocks {
+				for _, ins := range b.Instrs {
+					call, ok := ins.(ssa.CallInstruction)
+					if !ok || call.Common().StaticCallee() != scanFn || tsIdx >= len(call.Common().Args) {
+						continue
+					}
+					nSink++
+					if tainted[call.Common().Args[tsIdx]] {
+						ord[name]++
+						c.Visit(name)
+						c.Bad(fmt.Sprintf("%s / byte count used as the scan start #%d", name, ord[name]), ins.Pos(), "the start position given to Runner.scan is derived from a byte offset / len(string): for input with multi-byte runes it lies beyond the rune the caller meant (or beyond the end of the rune buffer)")
+					}
 				}
 			}
 		}
